@@ -95,6 +95,17 @@ func (m *MatchHTTP) Match(cx *layer4.Connection) (bool, error) {
 			return false, nil
 		}
 
+		// wait for the end of the header block: parsing headers that are cut off in the
+		// middle of a line (e.g. at the end of a prefetch chunk) either fails with
+		// "malformed MIME header" or accepts a truncated header value, depending on
+		// where the data happens to end
+		if !bytes.Contains(data, []byte("\n\r\n")) && !bytes.Contains(data, []byte("\n\n")) {
+			if len(data) >= layer4.MaxMatchingBytes {
+				return false, layer4.ErrMatchingBufferFull
+			}
+			return false, layer4.ErrConsumedAllPrefetchedBytes
+		}
+
 		// use bufio reader which exactly matches the size of prefetched data,
 		// to not trigger all bytes consumed error
 		bufReader := bufio.NewReaderSize(cx, len(data))
